@@ -295,19 +295,21 @@ def gen_leaf(rng, w, scope, numeric=True, equality=True, must_mention=None, **kw
     return gen_literal(rng, w, scope, must_mention=must_mention, **kw)
 
 
-def gen_formula(rng, w, scope, depth=2, width=3, forall=True, top=True, **kw):
+def gen_formula(rng, w, scope, depth=2, width=3, forall=True, top=True, nested_numeric=True, **kw):
     """an (and ...) body in the library's supported precondition fragment"""
     n = rng.randint(0 if top else 1, width)
     out = []
+    if not nested_numeric and not top:
+        kw = dict(kw, numeric=False)
     for _ in range(n):
         r = rng.random()
         if depth > 0 and r < 0.3:
-            sub = gen_formula(rng, w, scope, depth - 1, width, forall=False, top=False, **kw)
+            sub = gen_formula(rng, w, scope, depth - 1, width, forall=False, top=False, nested_numeric=nested_numeric, **kw)
             sub[0] = rng.choice(["or", "or", "and"])
             if len(sub) > 1:
                 out.append(sub)
         elif forall and depth > 0 and r < 0.45 and w.type_names():
-            q = gen_forall(rng, w, scope, depth - 1, **kw)
+            q = gen_forall(rng, w, scope, depth - 1, **(dict(kw, numeric=False) if not nested_numeric else kw))
             if q:
                 out.append(q)
         else:
@@ -553,3 +555,31 @@ def features_of(tree) -> set:
 
     go(tree)
     return out
+
+
+def statically_consistent(eff) -> bool:
+    """no function name is the target of two numeric effects and no predicate name is both added and
+    deleted anywhere in the effect (a syntactic, conservative guarantee that no two simultaneously
+    firing effects can be inconsistent, for workloads that must stay inside C03's quantifier)"""
+    targets, added, deleted = [], set(), set()
+
+    def go(e):
+        if not isinstance(e, list) or not e:
+            return
+        h = e[0]
+        if h == "and":
+            for x in e[1:]:
+                go(x)
+        elif h == "when":
+            go(e[2])
+        elif h == "forall":
+            go(e[2])
+        elif h in ("assign", "increase", "decrease", "scale-up", "scale-down"):
+            targets.append(e[1][0])
+        elif h == "not":
+            deleted.add(e[1][0])
+        else:
+            added.add(h)
+
+    go(eff)
+    return len(targets) == len(set(targets)) and not (added & deleted)
